@@ -156,6 +156,7 @@ def p_minus(K, prop, fid, allowed, audit, tag=""):
 from . import guards  # noqa: E402
 
 WORLDS = (2, 3)     # digit counts the representatives are evaluated at (3: widths that are not powers of two)
+WORLDS_FOR = None   # optional override: function(fid) -> tuple of digit counts (C16: equal widths across digit types)
 
 
 def _sg(K):
@@ -312,7 +313,7 @@ def g_row(K, prop, fid, reps, tag="", inst=None, cparams=None):
         key = "%s:G:%s:%s:%s" % (prop, K.config, fid, name)
         status, detail = PROVED, ""
         sample = None
-        for n in WORLDS:
+        for n in (WORLDS_FOR(fid) if WORLDS_FOR else WORLDS):
             W = guards.World(n, cparams)
             W.K = K
             env = env_fn(W)
